@@ -88,17 +88,23 @@ def dump(outpath):
 
 
 def gate(verbose=False):
-    outs = {}; procs = []
-    for mode in ("sym", "real"):
+    outs = {}
+    os.makedirs(os.path.join(ROOT, ".gen"), exist_ok=True)
+
+    def start(mode):
         e = dict(os.environ); e["VT_MODE"] = mode
-        os.makedirs(os.path.join(ROOT, ".gen"), exist_ok=True)
         outp = os.path.join(ROOT, ".gen", "conf_%s_%d.json" % (mode, os.getpid()))
-        procs.append((mode, outp, subprocess.Popen([sys.executable, "-W", "ignore", "-m", "vt.conformance", "dump", outp], env=e, cwd=ROOT,
-                           stdout=subprocess.DEVNULL, stderr=subprocess.PIPE, text=True)))
+        return (mode, outp, subprocess.Popen([sys.executable, "-W", "ignore", "-m", "vt.conformance", "dump", outp], env=e, cwd=ROOT,
+                                             stdout=subprocess.DEVNULL, stderr=subprocess.PIPE, text=True))
+    procs = [start("sym"), start("real")]
     for mode, outp, p in procs:
         _, err = p.communicate()
         if p.returncode != 0:
-            return {"ok": False, "error": "dump %s failed: %s" % (mode, err[-1500:])}
+            # one retry: a dump killed by the environment (memory pressure, a stray signal) says nothing about the model
+            mode, outp, p = start(mode)
+            _, err2 = p.communicate()
+            if p.returncode != 0:
+                return {"ok": False, "error": "dump %s failed twice: %s ||| %s" % (mode, err[-1500:], err2[-1500:])}
         outs[mode] = json.load(open(outp)); os.remove(outp)
     if len(outs["sym"]) != len(outs["real"]):
         return {"ok": False, "error": "different number of cases"}
